@@ -1,5 +1,5 @@
 (* C04: algebraic laws of the scope stack model (all names, all stacks). *)
-From Coq Require Import List NArith Bool Arith.
+From Coq Require Import List NArith Bool Arith Lia.
 Import ListNotations.
 From PV Require Import Regex Base LexTables ParserTables NodeModel ParserBase.
 
@@ -84,4 +84,129 @@ Theorem add_typedef_clash : forall (P: Type) (s: pstate P) n c top rest,
   exists l m, add_typedef_name P n c s = Err l m.
 Proof.
   intros P s n c top rest Hs Hg. unfold add_typedef_name, bind, get. rewrite Hs, Hg. eexists; eexists; reflexivity.
+Qed.
+
+(* ---- refinement of C's block-scope rule, for every declaration history ------------------- *)
+(* The specification looks at the *history* of events, scanning backwards for the nearest
+   declaration that is still in scope; the implementation keeps a stack of dictionaries. *)
+Inductive event := EOpen | EClose | EDecl (n: option str) (is_typedef: bool).
+
+Definition frame := list (option str * bool).
+
+(* the scope-stack effect of the parser's operations (_push_scope, _pop_scope, _add_typedef_name,
+   _add_identifier); None = the operation raises (unmatched close, same-scope clash) *)
+Fixpoint run_events (evs: list event) (scs: list frame) : option (list frame) :=
+  match evs with
+  | [] => Some scs
+  | EOpen :: r => run_events r ([] :: scs)
+  | EClose :: r => match scs with _ :: ((_ :: _) as t) => run_events r t | _ => None end
+  | EDecl n b :: r =>
+    match scs with
+    | top :: t =>
+      match scope_get n top with
+      | Some b' => if Bool.eqb b b' then run_events r (scope_set n b top :: t) else None
+      | None => run_events r (scope_set n b top :: t)
+      end
+    | [] => None
+    end
+  end.
+
+(* specification (C99 6.2.1): h is the history, most recent event first; skip counts the closed
+   blocks we are currently scanning over *)
+Fixpoint lookup_back (h: list event) (skip: nat) (n: option str) : bool :=
+  match h with
+  | [] => false
+  | EClose :: r => lookup_back r (S skip) n
+  | EOpen :: r => lookup_back r (Nat.pred skip) n
+  | EDecl m b :: r => if Nat.eqb skip 0 && name_eqb n m then b else lookup_back r skip n
+  end.
+
+Definition Inv (scs: list frame) (h: list event) : Prop :=
+  scs <> [] /\ forall n k, (k < length scs)%nat -> is_type_in n (skipn k scs) = lookup_back h k n.
+
+Lemma scope_get_set_eq : forall n m b sc, name_eqb n m = true -> scope_get n (scope_set m b sc) = Some b.
+Proof.
+  intros n m b sc E. induction sc as [|[k v] r IH]; cbn.
+  - rewrite E. reflexivity.
+  - destruct (name_eqb m k) eqn:E2; cbn.
+    + rewrite (name_eqb_trans _ _ _ E E2). reflexivity.
+    + destruct (name_eqb n k) eqn:E3; [|exact IH].
+      exfalso. rewrite name_eqb_sym in E. rewrite (name_eqb_trans _ _ _ E E3) in E2. discriminate.
+Qed.
+
+Lemma is_type_in_set : forall n m b top t,
+  is_type_in n (scope_set m b top :: t) = if name_eqb n m then b else is_type_in n (top :: t).
+Proof.
+  intros n m b top t. destruct (name_eqb n m) eqn:E.
+  - cbn. rewrite (scope_get_set_eq _ _ _ _ E). reflexivity.
+  - apply lookup_other_name. exact E.
+Qed.
+
+Lemma step_inv : forall e scs h scs1,
+  Inv scs h -> run_events [e] scs = Some scs1 -> Inv scs1 (e :: h).
+Proof.
+  intros e scs h scs1 [Hne HI] Hr. destruct e as [| |m b]; cbn in Hr.
+  - inversion Hr; subst. split; [discriminate|]. intros n k Hk. destruct k as [|k]; cbn [skipn lookup_back Nat.pred].
+    + rewrite lookup_fresh_scope. apply (HI n 0%nat). destruct scs; [congruence|cbn; lia].
+    + apply HI. cbn in Hk. lia.
+  - destruct scs as [|top [|f2 t]]; try discriminate. inversion Hr; subst. split; [discriminate|].
+    intros n k Hk. cbn [lookup_back]. specialize (HI n (S k)). cbn [skipn] in HI. apply HI. cbn in *. lia.
+  - destruct scs as [|top t]; [discriminate|].
+    assert (Hs: scs1 = scope_set m b top :: t).
+    { destruct (scope_get m top) as [b'|]; [destruct (Bool.eqb b b'); [|discriminate]|]; inversion Hr; reflexivity. }
+    subst scs1. split; [discriminate|]. intros n k Hk. destruct k as [|k]; cbn [skipn lookup_back Nat.eqb andb].
+    + rewrite is_type_in_set. destruct (name_eqb n m); [reflexivity|]. apply (HI n 0%nat). cbn. lia.
+    + specialize (HI n (S k)). cbn [skipn] in HI. apply HI. cbn in *. lia.
+Qed.
+
+Lemma run_events_cons : forall e r scs, run_events (e :: r) scs =
+  match run_events [e] scs with Some s1 => run_events r s1 | None => None end.
+Proof.
+  intros e r scs. destruct e as [| |m b]; cbn.
+  - reflexivity.
+  - destruct scs as [|top [|f2 t]]; reflexivity.
+  - destruct scs as [|top t]; [reflexivity|].
+    destruct (scope_get m top) as [b'|]; [destruct (Bool.eqb b b')|]; reflexivity.
+Qed.
+
+Lemma run_inv : forall evs scs h scs', Inv scs h -> run_events evs scs = Some scs' -> Inv scs' (rev evs ++ h).
+Proof.
+  induction evs as [|e r IH]; intros scs h scs' HI Hr.
+  - cbn in Hr. inversion Hr; subst. exact HI.
+  - rewrite run_events_cons in Hr. destruct (run_events [e] scs) as [s1|] eqn:E; [|discriminate].
+    cbn [rev]. rewrite <- app_assoc. cbn [app]. eapply IH; [|exact Hr]. eapply step_inv; eauto.
+Qed.
+
+(* For every history of scope entries, scope exits and declarations that the parser's operations
+   accept, an identifier is a type name in the stack model exactly when the nearest declaration of
+   it that is still in scope (scanning the history backwards) is a typedef. *)
+Theorem scope_refines : forall evs scs n,
+  run_events evs [[]] = Some scs -> is_type_in n scs = lookup_back (rev evs) 0 n.
+Proof.
+  intros evs scs n Hr.
+  assert (H0: Inv [[]] []).
+  { split; [discriminate|]. intros m k Hk. cbn in Hk. assert (k = 0)%nat by lia. subst. reflexivity. }
+  pose proof (run_inv _ _ _ _ H0 Hr) as [Hne HI]. rewrite app_nil_r in HI.
+  specialize (HI n 0%nat). cbn [skipn] in HI. apply HI.
+  destruct scs; [congruence|cbn; lia].
+Qed.
+
+(* the events are what the parser's operations do to the stack *)
+Theorem push_is_open : forall (P: Type) (s: pstate P), exists s', push_scope P s = Ok (tt, s') /\ Some (scopes P s') = run_events [EOpen] (scopes P s).
+Proof. intros. eexists. split; reflexivity. Qed.
+
+Theorem add_identifier_is_decl : forall (P: Type) (s s': pstate P) n c,
+  add_identifier P n c s = Ok (tt, s') -> run_events [EDecl n false] (scopes P s) = Some (scopes P s').
+Proof.
+  intros P s s' n c H. unfold add_identifier, bind, get in H. destruct (scopes P s) as [|top t] eqn:Es; [discriminate|].
+  destruct (scope_get n top) as [[|]|] eqn:Eg; try discriminate;
+  unfold set_top in H; rewrite Es in H; inversion H; subst; cbn; rewrite Eg; reflexivity.
+Qed.
+
+Theorem add_typedef_is_decl : forall (P: Type) (s s': pstate P) n c,
+  add_typedef_name P n c s = Ok (tt, s') -> run_events [EDecl n true] (scopes P s) = Some (scopes P s').
+Proof.
+  intros P s s' n c H. unfold add_typedef_name, bind, get in H. destruct (scopes P s) as [|top t] eqn:Es; [discriminate|].
+  destruct (scope_get n top) as [[|]|] eqn:Eg; try discriminate;
+  unfold set_top in H; rewrite Es in H; inversion H; subst; cbn; rewrite Eg; reflexivity.
 Qed.
